@@ -545,6 +545,66 @@ def matchify(facts, fn, blk):
     return True
 
 
+def filterify(facts, fn, blk):
+    """`opt.filter(|x| ..)` with a closure the pinned tree does not have: rewritten into
+    `match opt { Some(x) => if pred(&x) { Some(x) } else { None }, None => None }`, predicate inlined"""
+    t = fn.blocks[blk]['term']
+    cdef, clo_local = _closure_def_of(fn, t['args'][1])
+    cf = facts.fns.get(cdef) if cdef else None
+    if cf is None or cf.argc != 2 or len(cf.blocks) > MAX_BLOCKS or t.get('ret') is None:
+        return False
+    types = fn.types
+    span = t['span']
+    r_op = t['args'][0]
+    r_p = r_op.get('m') or r_op.get('c')
+    if r_p is None or r_p['p']:
+        return False
+    r_ty = fn.locals[r_p['l']]['ty']
+    env_ty = cf.locals[1]['ty']
+    env_is_ref = types[env_ty].get('k') == 'ref'
+    arg_ty = cf.locals[2]['ty']   # &T
+    ret_ty = cf.locals[0]['ty']   # bool
+    isize_ty = _type_index(types, lambda x: x.get('k') == 'int' and x.get('bits') == 64 and x.get('signed'),
+                           lambda: {'s': 'isize', 'k': 'int', 'bits': 64, 'signed': True, 'ptr': True})
+
+    def new_local(ty, name=None):
+        fn.locals.append({'ty': ty, 'name': name})
+        return len(fn.locals) - 1
+
+    L_r, L_d, L_a, L_env, L_v = new_local(r_ty), new_local(isize_ty), new_local(arg_ty), new_local(env_ty), new_local(ret_ty)
+    pl = lambda l, proj=None: {'l': l, 'p': proj or []}
+    mv = lambda l, proj=None: {'m': pl(l, proj)}
+    asg = lambda lhs, rv: {'k': 'assign', 'lhs': lhs, 'rv': rv, 'span': span}
+    base = len(fn.blocks)
+    SW, CL, K, KEEP, DROP, U = base, base + 1, base + 2, base + 3, base + 4, base + 5
+    none_rv = {'k': 'agg', 'ak': 'adt', 'adt': 'core::option::Option', 'variant': 'None', 'vi': 0, 'ops': [], 'fields': []}
+    blocks = []
+    blocks.append({'cleanup': False, 'stmts': [asg(pl(L_d), {'k': 'discr', 'p': pl(L_r)})],
+                   'term': {'k': 'switch', 'discr': mv(L_d), 'targets': [[1, CL], [0, DROP]], 'otherwise': U, 'span': span}})
+    env_rv = {'k': 'ref', 'mut': bool(types[env_ty].get('mut')), 'p': pl(clo_local)} if env_is_ref else \
+        {'k': 'use', 'a': {'m': pl(clo_local)}}
+    blocks.append({'cleanup': False,
+                   'stmts': [asg(pl(L_a), {'k': 'ref', 'mut': False, 'p': pl(L_r, [{'vi': 1, 'dc': 'Some'}, {'f': 0, 'n': '0'}])}),
+                             asg(pl(L_env), env_rv)],
+                   'term': {'k': 'call', 'callee': cdef, 'callee_crate': 'fatfs', 'args': [mv(L_env), mv(L_a)],
+                            'dest': pl(L_v), 'dest_ty': ret_ty, 'ret': K, 'span': span, 'unwind': None, 'func': None,
+                            'gargs': [], 'synthetic': True}})
+    blocks.append({'cleanup': False, 'stmts': [],
+                   'term': {'k': 'switch', 'discr': mv(L_v), 'targets': [[0, DROP]], 'otherwise': KEEP, 'span': span}})
+    blocks.append({'cleanup': False, 'stmts': [asg(copy.deepcopy(t['dest']), {'k': 'use', 'a': mv(L_r)})],
+                   'term': {'k': 'goto', 'ret': t['ret'], 'span': span}})
+    blocks.append({'cleanup': False, 'stmts': [asg(copy.deepcopy(t['dest']), none_rv)],
+                   'term': {'k': 'goto', 'ret': t['ret'], 'span': span}})
+    blocks.append({'cleanup': False, 'stmts': [], 'term': {'k': 'unreachable', 'span': span}})
+    fn.blocks.extend(blocks)
+    fn.blocks[blk]['stmts'].append(asg(pl(L_r), {'k': 'use', 'a': copy.deepcopy(r_op)}))
+    fn.blocks[blk]['term'] = {'k': 'goto', 'ret': SW, 'span': span, 'matchified': 'Option::filter'}
+    fn._succ = fn._pred = fn._dom = fn._pdom = fn._reach = None
+    fn.__dict__.pop('_bool_switch_cache', None)
+    _attach_and_inline_closure(facts, fn, blk, CL, cdef, cf)
+    return True
+
+
 def normalise_loops(facts):
     known = load_known()
     if known is None:
@@ -575,6 +635,14 @@ def normalise_loops(facts):
                     if cdef and cdef not in known and cdef in facts.fns and facts.fns[cdef].crate == 'fatfs':
                         try:
                             if matchify(facts, f, bi):
+                                changed = True
+                        except Exception:
+                            pass
+                if t['k'] == 'call' and t.get('callee') == 'core::option::Option::filter' and len(t.get('args') or []) == 2:
+                    cdef, _l = _closure_def_of(f, t['args'][1])
+                    if cdef and cdef not in known and cdef in facts.fns and facts.fns[cdef].crate == 'fatfs':
+                        try:
+                            if filterify(facts, f, bi):
                                 changed = True
                         except Exception:
                             pass
@@ -910,6 +978,20 @@ def canonical_field_names(facts):
         if len(cands) == 1 and cands[0]['name'] != canon and not any(f['name'] == canon for f in fields):
             renames[cands[0]['name']] = canon
             cands[0]['name'] = canon
+    # the cached copy of the on-disk status byte: the one field of type Cell<FsStatusFlags> in the crate, wherever it lives
+    types = facts.api['types']
+    cells = []
+    for path, a in facts.api['adts'].items():
+        if not path.startswith('fatfs::') or a.get('kind') != 'struct' or not a.get('variants'):
+            continue
+        for f in a['variants'][0]['fields']:
+            ty = types[f['ty']] or {}
+            if ty.get('k') == 'adt' and ty.get('path') == 'core::cell::Cell' and ty.get('args') and \
+                    (types[ty['args'][0]] or {}).get('path', '').endswith('::FsStatusFlags'):
+                cells.append(f)
+    if len(cells) == 1 and cells[0]['name'] != 'current_status_flags':
+        renames[cells[0]['name']] = 'current_status_flags'
+        cells[0]['name'] = 'current_status_flags'
     if not renames:
         return
 
